@@ -40,16 +40,17 @@ type schedStepRes struct {
 }
 
 type schedRes struct {
-	Points   int64          `json:"points"`
-	Paused   bool           `json:"paused"`
-	PausedAt string         `json:"pausedAt"`
-	YBlocked bool           `json:"yBlocked"`
-	YStalled bool           `json:"yStalled"`
-	Labels   []string       `json:"labels"`
-	X        []schedStepRes `json:"x"`
-	Y        []schedStepRes `json:"y"`
-	Pre      []schedStepRes `json:"pre"`
-	Post     []schedStepRes `json:"post"`
+	Points       int64          `json:"points"`
+	Paused       bool           `json:"paused"`
+	PausedAt     string         `json:"pausedAt"`
+	YBlocked     bool           `json:"yBlocked"`
+	YStalled     bool           `json:"yStalled"`
+	Labels       []string       `json:"labels"`
+	LabelsBefore []string       `json:"labelsBefore"` // lock operations the held party had performed before its hold point
+	X            []schedStepRes `json:"x"`
+	Y            []schedStepRes `json:"y"`
+	Pre          []schedStepRes `json:"pre"`
+	Post         []schedStepRes `json:"post"`
 	// second hold (see sim.SchedArgs)
 	AuxPaused   bool     `json:"auxPaused"`
 	AuxPausedAt string   `json:"auxPausedAt"`
@@ -203,7 +204,33 @@ func c11Run(w *kernel.Worker, j *c11Job, rep *kernel.Report) (*Fail, error) {
 		if i := strings.LastIndex(site, ":"); i > 0 {
 			site = site[:i] // function, not line
 		}
-		fs.Add("C11/search-inconsistent/"+j.Dir+"/"+strings.Fields(j.Writer)[0]+"/"+site, fmt.Sprintf("%s held at lock operation %d (%s) while the other party ran; writer %q, query %q: %s",
+		fp := "C11/search-inconsistent/" + j.Dir + "/" + strings.Fields(j.Writer)[0] + "/" + site
+		if j.Dir == "query-paused" && strings.Fields(j.Writer)[0] != "W1" && (strings.Contains(what, "returned 0 times") || strings.Contains(what, "counts 0 events") || strings.Contains(what, "count = 0")) {
+			// one root cause with its own classes: the search listed the segment as unrotated, the segment was rotated
+			// while the search was held, and the look-up of the unrotated data then finds nothing. For record searches the
+			// code re-checks the segment type right before it extracts the blocks; a hold point before that check must
+			// therefore still see the event.
+			qclass := "records"
+			if strings.Contains(j.Query, "stats count by") {
+				qclass = "stats-by"
+			} else if strings.Contains(j.Query, "stats") {
+				qclass = "stats"
+			}
+			when := ""
+			if qclass == "records" {
+				when = "/held-before-the-segment-type-check"
+				for _, l := range r.LabelsBefore {
+					if strings.Contains(l, "writer.IsSegKeyUnrotated") {
+						when = "/held-after-the-segment-type-check"
+					}
+				}
+			}
+			fp = "C11/search-misses-flushed-event/segment-rotated-during-the-search/" + qclass + when
+		}
+		if j.Dir == "query-paused" && strings.Fields(j.Writer)[0] != "W1" && strings.HasPrefix(what, "error:") {
+			fp = "C11/search-fails/segment-rotated-during-the-search" // same root cause, surfacing as a query error
+		}
+		fs.Add(fp, fmt.Sprintf("%s held at lock operation %d (%s) while the other party ran; writer %q, query %q: %s",
 			map[string]string{"writer-paused": "writer", "query-paused": "query"}[j.Dir], j.PauseAt, where, j.Writer, j.Query, what))
 	}
 	// quiescence: the stored contents equal what a sequential execution gives
@@ -276,9 +303,7 @@ func C11() int {
 				if wr == c11Writers[1] && q == c11Queries[1] {
 					rep.Sample(map[string]interface{}{"direction": dir, "writer": wr, "query": q, "lock_operations": r.Labels})
 				}
-				if dir == "writer-paused" {
-					break // the writer's lock operations do not depend on the query: one dry run per writer is enough
-				}
+
 			}
 		}
 	}
